@@ -23,6 +23,8 @@ inductive Out (α : Type) where
   | fuel
   deriving Repr, Inhabited
 
+deriving instance DecidableEq for Out
+
 namespace Out
 @[inline] def bind {α β} (x : Out α) (f : α → Out β) : Out β :=
   match x with
